@@ -191,7 +191,7 @@ pub fn tape_checks(ctx: &Ctx) -> Vec<(&'static str, Box<CheckFn<'_>>)> {
 		(
 			"prefixes",
 			Box::new(move |g: &mut Gen, stats: &mut Stats| {
-				let e = *g.pick(&codecs);
+				let e = pick_entry(g, &codecs);
 				let mut cfg = GenCfg { budget: 20_000, ..GenCfg::default() };
 				let v = gen_val(&e.ty, g, &mut cfg);
 				check_prefixes(e, &v, g, stats)
@@ -201,7 +201,7 @@ pub fn tape_checks(ctx: &Ctx) -> Vec<(&'static str, Box<CheckFn<'_>>)> {
 		(
 			"decode_all",
 			Box::new(move |g: &mut Gen, stats: &mut Stats| {
-				let e = *g.pick(&codecs2);
+				let e = pick_entry(g, &codecs2);
 				let (mut bytes, family) = gen_input(&e.ty, g, 128);
 				if e.is_recursive() && bytes.len() > 256 {
 					bytes.truncate(256);
